@@ -58,7 +58,10 @@ def xnpv(rate, values, dates=None):
 
         def _(r):
             e = isinstance(r, str) and Error.errors['#VALUE!']
-            return get_error(r, e) or func(r)
+            v = get_error(r, e) or func(r)
+            if isinstance(v, float) and not np.isfinite(v):  # rate is -1.
+                return Error.errors['#DIV/0!']
+            return v
 
         rate = text2num(replace_empty(rate))
         return np.vectorize(_, otypes=[object])(rate).view(Array)
